@@ -85,7 +85,7 @@ def loopDims (cfg : ScanCfg) (outer : Vars α) (rngs : Rngs) (inArgAxes : List (
 /-- the loop itself, once flax has fixed `d_length` and the per-argument axes: how many iterations, the
 one-time initialisation of the broadcast collections, the iterations in order, the stacked outputs.
 Result: `(broadcast collections, (carried collections, carry), (ys, stacked axis collections))` -/
-def loopCore (cfg : ScanCfg) (verdict : Bool) (mutF : LFilter) (body : Body α) (outer : Vars α)
+def loopCoreChecked (cfg : ScanCfg) (verdict : Bool) (mutF : LFilter) (body : Body α) (outer : Vars α)
     (rngs : Rngs) (init : List (Arr α)) (args : List (Arr α)) (inArgAxes : List (Option Int))
     (dLength : Nat) : Option (StepOut α) :=
   (loopDims cfg outer rngs inArgAxes args dLength).bind fun dims =>
@@ -102,6 +102,33 @@ def loopCore (cfg : ScanCfg) (verdict : Bool) (mutF : LFilter) (body : Body α) 
   (byIndex n res.2).bind fun outs =>
   (opt (collectOuts stackAt outYAxes (cfg.outAx.map (·.axis)) r0.2.2.1 outs)).bind fun out =>
   some (r0.1, res.1, out)
+
+/-- the loop with `check_constancy_invariants=False`: the broadcast collections are inputs only (passed unchanged
+to every iteration and returned unchanged; what the body does to them is dropped), no output may be declared
+`broadcast`; everything else — number of iterations, direction, slices, carry threading, stacking — as above -/
+def loopCoreSimple (cfg : ScanCfg) (mutF : LFilter) (body : Body α) (outer : Vars α)
+    (rngs : Rngs) (init : List (Arr α)) (args : List (Arr α)) (inArgAxes : List (Option Int))
+    (dLength : Nat) : Option (StepOut α) :=
+  if cfg.outAxes.hasBroadcast then none else
+  (loopDims cfg outer rngs inArgAxes args dLength).bind fun dims =>
+  (opt (jaxLength cfg.length dims)).bind fun n =>
+  if n = 0 then none else
+  let step := loopStep cfg mutF body outer rngs inArgAxes args dLength
+  let st0 : Vars α × List (Arr α) := (roleGroup outer cfg.inFs 1, init)
+  let b := roleGroup outer cfg.inFs 0
+  (loopRun (fun st i => (step b st i).map (fun r => (r.2.1, r.2.2))) sameStruct st0
+      (if cfg.reverse then (List.range n).reverse else List.range n)).bind fun res =>
+  (byIndex n res.2).bind fun outs =>
+  (opt (cfg.outAxes.expand ((outs.head?.map (fun o => o.1.length)).getD 0))).bind fun outYAxes =>
+  (opt (collectOuts stackAt outYAxes (cfg.outAx.map (·.axis)) [] outs)).bind fun out =>
+  some (b, res.1, out)
+
+/-- both values of `check_constancy_invariants` -/
+def loopCore (cfg : ScanCfg) (verdict : Bool) (mutF : LFilter) (body : Body α) (outer : Vars α)
+    (rngs : Rngs) (init : List (Arr α)) (args : List (Arr α)) (inArgAxes : List (Option Int))
+    (dLength : Nat) : Option (StepOut α) :=
+  if cfg.checkConst then loopCoreChecked cfg verdict mutF body outer rngs init args inArgAxes dLength
+  else loopCoreSimple cfg mutF body outer rngs init args inArgAxes dLength
 
 /-- **the explicit loop** that `lift.scan` is claimed to equal; its results are written back into the
 scope (mutable collections only) -/
